@@ -73,6 +73,7 @@ fn parse_args() -> (String, Opts) {
 
 fn main() {
     let (cmd, opts) = parse_args();
+    *util::OUT_PATH.lock().unwrap() = opts.out.clone();
     // Keep panic messages of caught panics out of the way unless asked for.
     if std::env::var("RRVERIF_PANIC_TRACE").is_err() {
         std::panic::set_hook(Box::new(|_| {}));
